@@ -429,7 +429,10 @@ class ModelSoftFileLock:
             if holder is None:
                 # malformed marker (JADE's deliberate "deadlock" file, or a half-written one)
                 if w.lock_mode == "selfheal":
-                    if w.clock - born < _MALFORMED_AGE:
+                    remaining = born + _MALFORMED_AGE - w.clock
+                    if remaining > 0:
+                        if timeout is not None and 0 <= timeout < remaining:
+                            self._timeout(w, vt, timeout, "malformed-fresh")
                         w.clock = born + _MALFORMED_AGE  # the poll loop simply waits it out
                     _unlink_quiet(self.lock_file)
                     w._note_lock("break-malformed", self.lock_file, vt)
